@@ -47,7 +47,7 @@ func H_creader() {
 	var out []byte
 	done := false
 	var ferr error
-	for i := 0; i < 80 && !done; i++ {
+	for i := 0; i < 1<<14 && !done; i++ {
 		sz := 64
 		if i < R {
 			sz = sizes[vfChoice("sz", len(sizes))]
